@@ -55,7 +55,7 @@ REQUIRED_COUNTERS = [
     "source_rows_checked",
     "leak_pairs_checked",
 ]
-CASE_TIMEOUT_S = 120
+CASE_TIMEOUT_S = 600
 
 SUPPORTS = [(0, 200), (-10, 10), (-3.3, 7.7), (0, 0.3)]
 EPS32 = float(np.finfo(np.float32).eps)
@@ -533,6 +533,7 @@ def run_case(case):
 
     rec = Recorder()
     _install()
+    torch.set_grad_enabled(True)  # see c16: an interrupted no_grad block must not poison later cases
     torch.manual_seed(case["seed"])
     np.random.seed(case["seed"] % (1 << 31))
     _STATE["tap_error"] = None
